@@ -46,3 +46,13 @@ def Q(ctx, x):
 
 
 __all__.append('Q')
+
+
+def NOT(x):
+    """logical not for both proxy booleans and Python bools (~True is -2)"""
+    if isinstance(x, bool):
+        return not x
+    return ~x
+
+
+__all__.append('NOT')
